@@ -355,10 +355,12 @@ class IntervalTier(textgrid_tier.TextgridTier):
                 if interval.end <= start:
                     newEntryList.append(interval)
                 elif interval.start >= end:
+                    # An interval that began where the erased region ended
+                    # now begins where it started (end - diff may differ
+                    # from start by a rounding error)
+                    newStart = start if interval.start == end else interval.start - diff
                     newEntryList.append(
-                        Interval(
-                            interval.start - diff, interval.end - diff, interval.label
-                        )
+                        Interval(newStart, interval.end - diff, interval.label)
                     )
 
             # Special case: an interval that spanned the deleted
